@@ -51,7 +51,8 @@ class Canon:
         for vid in order:
             ms = self.mods.get(vid, [])
             v = self.decl[vid][0]
-            if not ms and v.get("init") is not None:
+            if v.get("init") is not None and (not ms or (v.get("isref") and not v["n"].startswith("__"))):
+                # a reference local is an alias of its initialiser: writes through it change the referent, not the binding
                 self.kind[vid] = "pure"
             elif ms and all(m[0] == "step" for m in ms) and v.get("init") is not None:
                 self.kind[vid] = "iter"
